@@ -83,10 +83,21 @@ Theorem C02_parse_eq_ref_repaired : forall c s,
 Proof. exact parse_eq_ref_repaired. Qed.
 Print Assumptions C02_parse_eq_ref_repaired.
 
-(* the UDP port switch of Parse is the documented rule table read in precedence order *)
-Theorem C02_udp_port_table : forall sp dp, udp_class sp dp = first_rule sp dp udp_rules.
+(* The three switches of Parse are DEFINED in the model from explicit row lists in source order (Model/Parse.v:
+   ethertype_rows, ipproto_rows, udp_port_rows); on every run the harness extracts the same rows from layer_frame.go
+   with go/ast and compares them as text (dispatch kind "table").  These lists are the documented tables of the
+   reference decoder, for every key / every port pair: *)
+Theorem C02_udp_port_table : forall sp dp, first_row sp dp udp_port_rows = first_rule sp dp udp_rules.
 Proof. exact udp_class_table. Qed.
 Print Assumptions C02_udp_port_table.
+
+Theorem C02_ethertype_table : forall et, lookup_row et ethertype_rows = option_map l3_id (lookup et ethertype_table).
+Proof. exact ethertype_rows_table. Qed.
+Print Assumptions C02_ethertype_table.
+
+Theorem C02_ipproto_table : forall p, lookup_row p ipproto_rows = option_map l4_id (lookup p ipproto_table).
+Proof. exact ipproto_rows_table. Qed.
+Print Assumptions C02_ipproto_table.
 
 Example C02_parse_eq_ref_nonvacuous :
   let s := of_bytes_cap ex_arp28 [170;170] in
